@@ -1051,6 +1051,55 @@ func (w *World) doTamper() {
 		}
 		r.Violate("C07:"+tamperNames[kind], "entry %s with %s still verifies", w.M.Name(h), tr.detail)
 	}
+	w.mergeTampered(n, h, tr)
+}
+
+// mergeTampered: the changed copy is offered, under the honest identifier, to the point where the library
+// verifies what it takes over - a merge. The receiver is a fresh log or (the state a length-limited load
+// or a bounded merge leaves) a log that holds a successor of the entry but not the entry itself, so that
+// its index already names the identifier. An entry whose Verify fails must not end up in the log.
+func (w *World) mergeTampered(n *Node, h string, tr tamperResult) {
+	r := w.R
+	ro := w.logOpts()
+	var succ string
+	for _, c := range sortedKeys(n.Set) {
+		for _, nx := range w.M.Reg[c].Next {
+			if nx == h {
+				succ = c
+			}
+		}
+	}
+	how := r.Choose("tampered-into", 3)
+	if succ != "" && how != 0 {
+		se, _ := n.Log.Get(w.Cids[succ])
+		om := entry.NewOrderedMap()
+		om.Set(succ, se)
+		ro.Entries = om
+		ro.Heads = []iface.IPFSLogEntry{se}
+		r.Probe("tampered-predecessor-offered-to-partial-log")
+	}
+	recv := w.newLog(n.W, ro)
+	co := w.logOpts()
+	om := entry.NewOrderedMap()
+	om.Set(h, tr.e)
+	co.Entries = om
+	co.Heads = []iface.IPFSLogEntry{tr.e}
+	var carrier *ipfslog.IPFSLog
+	var cerr, jerr error
+	out := Protect(func() {
+		carrier, cerr = ipfslog.NewLog(w.St, n.W.ID, co)
+		if cerr == nil {
+			_, jerr = recv.Join(carrier, -1)
+		}
+	})
+	if out.Status == "violation" {
+		r.Violate("C07:merge-panic", "offering a tampered entry (%s) to a merge panicked: %s", tamperNames[tr.kind], out.Msg)
+	} else if out.Status != "ok" {
+		r.Harness("%s", out.Msg)
+	}
+	if got, ok := recv.Get(w.Cids[h]); ok && got != nil {
+		r.Violate("C07:merge-"+tamperNames[tr.kind], "a merge (err=%v) took over the copy of %s with %s although its signature does not verify (receiver held its successor: %v)", jerr, w.M.Name(h), tr.detail, ro.Entries != nil)
+	}
 }
 
 // versionIO: the default codec with a pre-signature step that stamps the entry with a legacy version -
